@@ -349,6 +349,25 @@ def h_augment(c):
   smin = c.real('smin', 0.5, 2)
   smax = c.real('smax', 0.5, 2)
   c.assume(smin <= smax)
+  if c.params.get('delete'):
+    # delete_out_of_range_notes=True: the amount comes from the requested
+    # interval unclamped; exactly the pitched notes it pushes out are deleted
+    out = sl.augment_note_sequence(ns, smin, smax, tmin, tmax, lo, hi,
+                                   delete_out_of_range_notes=True)
+    c.check(len(out.notes) <= N, 'no note invented')
+    kept = list(out.notes)
+    for m in kept:
+      c.check(c.Or(m.is_drum, c.And(m.pitch >= lo, m.pitch <= hi)),
+              'every kept pitched note lies inside the allowed range')
+    # one common amount k in [tmin, tmax] explains which notes survive
+    ok = []
+    for k in range(-24, 25):
+      surv = [c.Or(d, c.And(p + k >= lo, p + k <= hi)) for p, d in ps]
+      ok.append(c.And(tmin <= k, k <= tmax,
+                      c.eq(len(kept), c.Count(surv))))
+    c.check(c.Or(ok), 'the survivors are those of one amount of the '
+                      'requested interval')
+    return
   out = sl.augment_note_sequence(ns, smin, smax, tmin, tmax, lo, hi,
                                  delete_out_of_range_notes=False)
   c.check(len(out.notes) == N, 'no note deleted')
@@ -435,6 +454,7 @@ def jobs(tier):
   add('h_clamp')
   add('h_augment', N=1)
   add('h_augment', N=2)
+  add('h_augment', N=2, delete=True, budget=600)
   if deep:
     add('h_transpose_ns', N=2, in_place=True, budget=900)
     add('h_transpose_ns', N=3, in_place=False, budget=2400, required=False)
